@@ -146,3 +146,8 @@ def run(chk, prog):
     merged = ("call", ("attr", ("attr", P("self"), "constraint"), "merge"), (P("constraint"),), ())
     exp = ("call", ("attr", ("attr", P("self"), "p"), "importance"), (P("key"), merged, ("attr", P("self"), "args")), ())
     chk.require(r.ret == exp, "CHM-LEFTBIAS", "Target.importance", "observations dominate the merge", derived=show(r.ret)[:200], expected=show(exp), where=chk.where(ci.module, fn))
+    # Marginal with an algorithm estimates densities through ChangeTarget's reweighting (C26's WEIGHT-INF on _reweight), and programs built from the vi
+    # distributions are scored by their vi density, which must be the density of what their sampler draws (C30's SIBLING-DENSITY)
+    from ._share import take
+    take(chk, prog, "C26", lambda o: "._reweight" in o["instance"], "ChangeTarget reweighting obligations (from C26)", 2)
+    take(chk, prog, "C30", lambda o: o["rule"] == "SIBLING-DENSITY", "vi sampler / density agreement (from C30)", 3)
